@@ -12,6 +12,7 @@
 #include <pwd.h>
 #include <stdio.h>
 #include <stdlib.h>
+#include <pthread.h>
 #include <string.h>
 #include <unistd.h>
 
@@ -33,10 +34,23 @@ static void load(void) {
     }
     fclose(f);
 }
-void __wrap_setgrent(void) { load(); g_pos = 0; }
-void __wrap_endgrent(void) { g_pos = 0; }
+/* glibc serialises setgrent/getgrent_r/endgrent on ONE process-wide stream with a lock held for the whole call (the slow
+   directory lookup included): two threads enumerating at the same time share the stream's position, each getting some of the
+   entries */
+static pthread_mutex_t g_lock = PTHREAD_MUTEX_INITIALIZER;
+static int getgrent_locked(struct group *gr, char *buf, size_t buflen, struct group **res);
+void __wrap_setgrent(void) { pthread_mutex_lock(&g_lock); load(); g_pos = 0; pthread_mutex_unlock(&g_lock); }
+void __wrap_endgrent(void) { pthread_mutex_lock(&g_lock); g_pos = 0; pthread_mutex_unlock(&g_lock); }
 
 int __wrap_getgrent_r(struct group *gr, char *buf, size_t buflen, struct group **res) {
+    int rv;
+    pthread_mutex_lock(&g_lock);
+    rv = getgrent_locked(gr, buf, buflen, res);
+    pthread_mutex_unlock(&g_lock);
+    return rv;
+}
+
+static int getgrent_locked(struct group *gr, char *buf, size_t buflen, struct group **res) {
     char *line, *sp, *names; size_t need; int nmem = 0, i; char *p, **mem, *s;
     *res = NULL;
     { const char *f = getenv("VERIF_NSS_FAIL"); if (f && access(f, F_OK) == 0) return EIO; }   /* scan fails */
@@ -63,7 +77,16 @@ int __wrap_getgrent_r(struct group *gr, char *buf, size_t buflen, struct group *
     return 0;
 }
 
+static int getpwnam_locked(const char *name, struct passwd *pw, char *buf, size_t buflen, struct passwd **res);
 int __wrap_getpwnam_r(const char *name, struct passwd *pw, char *buf, size_t buflen, struct passwd **res) {
+    int rv;
+    pthread_mutex_lock(&g_lock);        /* the shim's tables are reloaded by setgrent(); glibc's own call is thread-safe */
+    rv = getpwnam_locked(name, pw, buf, buflen, res);
+    pthread_mutex_unlock(&g_lock);
+    return rv;
+}
+
+static int getpwnam_locked(const char *name, struct passwd *pw, char *buf, size_t buflen, struct passwd **res) {
     int i; size_t l = strlen(name);
     *res = NULL;
     if (!u_lines) load();
